@@ -41,3 +41,23 @@ claim(
     "length-scales are kept representable (degenerate axes get the coordinate magnitude as span).",
     "Hypothesis PBT with reference implementation + numerical differentiation",
 )
+claim(
+    "C02",
+    "Generated-input search: every generated GP problem (n<=25, d<=3, kernel grammar incl. sums/change-points/noise kernels, three "
+    "means, four noise specifications, queries inside / at training points / far outside, three query forms) is compared with the "
+    "closed-form posterior computed from reference kernels by 40-digit LU (n<=10) or a dense solve, with a tolerance scaled by the "
+    "measured condition number; the three call forms must agree, 0 <= var <= prior var, training-order invariance (with per-point "
+    "noise parameters permuted alike) and y_err == diag y_cov (bit-identical).",
+    "Problems with condition number > 1e10 are exercised for crashes only; single-point data sets (n=1) are rejected by the constructor "
+    "with its documented 1-D ValueError and are outside the generated domain.",
+    "Hypothesis PBT with closed-form reference (mpmath) and metamorphic relations",
+)
+claim(
+    "C11",
+    "Generated-input search: marginal likelihood against an independent multivariate-normal log-density (mpmath LU / eigendecomposition, "
+    "scipy mvn as oracle cross-check); leave-one-out predictions and score differences against brute-force deletion of each point; "
+    "value-and-gradient variants against the plain value and 5-point stencils with Richardson control; automatic selection (both optimisers, "
+    "both criteria, n_starts in {default,1,2}) must stay inside hp_bounds and (bfgs) score at least the centre of the box.",
+    "kappa > 1e8 (scores) / 1e5 (stencils) inconclusive; optimiser runs limited to SE/RQ(+white) kernels on <= 10 points.",
+    "Hypothesis PBT with brute-force refit oracle + numerical differentiation",
+)
